@@ -90,6 +90,16 @@ func gen(t *rapid.T) Case {
 					op.Name = op.Name[:200]
 				}
 				op.Tags = pbt.MapOf(tagStr(), tagStr(), 3).Draw(t, "tags")
+				if rapid.IntRange(0, 5).Draw(t, "bucketTag?") == 0 {
+					// a tag named like one of the reporter's bucket tags (default or custom names): ordinary
+					// user data on counters, gauges and timers, and on histograms it travels next to the
+					// reporter's own tag of that name
+					k := rapid.SampledFrom([]string{"bucket", "bucketid", "le", "bid"}).Draw(t, "bucketTag")
+					if op.Tags == nil {
+						op.Tags = pbt.M{}
+					}
+					op.Tags[pbt.S(k)] = rapid.OneOf(tagStr(), rapid.Just(pbt.S("0003")), rapid.Just(pbt.S("user-uploads"))).Draw(t, "bucketTagValue")
+				}
 				op.I = pbt.AnyInt64().Draw(t, "i")
 				op.F = pbt.AnyFloat().Draw(t, "f")
 				op.NB = rapid.IntRange(0, 6).Draw(t, "nb")
@@ -232,14 +242,6 @@ func run(c Case) (pbt.Outcome, error) {
 					name += strings.Repeat("x", op.Pad-len(name))
 				}
 				tags := op.Tags.Std()
-				for _, reserved := range []string{idName, bucketName} {
-					// a user tag with the name of a bucket tag would make the harness take the
-					// metric for a histogram bucket; rename it
-					if v, ok := tags[reserved]; ok {
-						delete(tags, reserved)
-						tags["user-"+reserved] = v
-					}
-				}
 				exp := m3thrift.Metric{Name: name}
 				for k, v := range tags {
 					exp.Tags = append(exp.Tags, m3thrift.MetricTag{Name: k, Value: v})
@@ -350,27 +352,64 @@ func run(c Case) (pbt.Outcome, error) {
 				if m3h.IsInternal(m.Name) {
 					continue
 				}
-				var rest []m3thrift.MetricTag
-				id, rng := "", ""
-				for _, tg := range m.Tags {
+				// a bucket metric carries the histogram's own tags plus the two bucket tags. The
+				// histogram's own tags may use the very same names (a tag called "bucket" is ordinary
+				// user data), so which of equally named tags are the reporter's is decided by matching:
+				// one tag of each bucket-tag name is taken out such that what remains is a reported
+				// histogram, if there is such a choice.
+				var ids, rngs []int
+				for ti, tg := range m.Tags {
 					switch tg.Name {
 					case idName:
-						id = tg.Value
+						ids = append(ids, ti)
 					case bucketName:
-						rng = tg.Value
-					default:
-						rest = append(rest, tg)
+						rngs = append(rngs, ti)
 					}
 				}
 				cm := m
-				cm.Tags = rest
-				if id != "" || rng != "" {
+				if plain := m3h.Canon(m); (len(ids) > 0 || len(rngs) > 0) && gotCount[plain] >= wantCount[plain] {
+					// (not a reported counter/gauge/timer that merely has a tag of such a name)
 					cm.Name = "HIST:" + m.Name
-					if id == "" || rng == "" {
-						errs.Addf("histogram bucket metric %q lacks one of its bucket tags: id=%q range=%q", m.Name, id, rng)
+					if len(ids) == 0 || len(rngs) == 0 {
+						errs.Addf("histogram bucket metric %q lacks one of its bucket tags: %v", m.Name, m.Tags)
 					}
-					if _, err := strconv.Atoi(id); err != nil {
-						errs.Addf("bucket id %q of %q is not a number", id, m.Name)
+					without := func(a, b int) []m3thrift.MetricTag {
+						var rest []m3thrift.MetricTag
+						for ti, tg := range m.Tags {
+							if ti != a && ti != b {
+								rest = append(rest, tg)
+							}
+						}
+						return rest
+					}
+					if len(ids) == 0 {
+						ids = []int{-1}
+					}
+					if len(rngs) == 0 {
+						rngs = []int{-1}
+					}
+					cm.Tags = without(ids[0], rngs[0])
+					found := false
+					for _, a := range ids {
+						for _, b := range rngs {
+							if found || a < 0 || b < 0 {
+								continue
+							}
+							if _, err := strconv.Atoi(m.Tags[a].Value); err != nil {
+								continue // a bucket id is a number
+							}
+							try := cm
+							try.Tags = without(a, b)
+							if k := m3h.Canon(try); gotCount[k] < wantCount[k] {
+								cm.Tags = try.Tags
+								found = true
+							}
+						}
+					}
+					if !found && ids[0] >= 0 {
+						if _, err := strconv.Atoi(m.Tags[ids[0]].Value); err != nil && len(ids) == 1 {
+							errs.Addf("bucket id %q of %q is not a number", m.Tags[ids[0]].Value, m.Name)
+						}
 					}
 				}
 				canon := m3h.Canon(cm)
